@@ -226,7 +226,7 @@ func (s *AttrSpec) decode(content *hcl.BodyContent, blockLabels []blockLabel, ct
 			Summary:  "Incorrect attribute value type",
 			Detail: fmt.Sprintf(
 				"Inappropriate value for attribute %q: %s.",
-				s.Name, err.Error(),
+				s.Name, conversionErrorDetail(val, s.Type, err),
 			),
 			Subject:     attr.Expr.Range().Ptr(),
 			Context:     hcl.RangeBetween(attr.NameRange, attr.Expr.Range()).Ptr(),
@@ -1297,12 +1297,13 @@ func (s *BlockAttrsSpec) decode(content *hcl.BodyContent, blockLabels []blockLab
 		attrVal, attrDiags := attr.Expr.Value(ctx)
 		diags = append(diags, attrDiags...)
 
+		givenVal := attrVal
 		attrVal, err := convert.Convert(attrVal, s.ElementType)
 		if err != nil {
 			diags = append(diags, &hcl.Diagnostic{
 				Severity:    hcl.DiagError,
 				Summary:     "Invalid attribute value",
-				Detail:      fmt.Sprintf("Invalid value for attribute of %q block: %s.", s.TypeName, err),
+				Detail:      fmt.Sprintf("Invalid value for attribute of %q block: %s.", s.TypeName, conversionErrorDetail(givenVal, s.ElementType, err)),
 				Subject:     attr.Expr.Range().Ptr(),
 				Context:     hcl.RangeBetween(attr.NameRange, attr.Expr.Range()).Ptr(),
 				Expression:  attr.Expr,
@@ -1744,4 +1745,16 @@ func prepareBodyVal(decodeResult cty.Value, body hcl.Body) cty.Value {
 		return decodeResult.WithMarks(marks)
 	}
 	return decodeResult
+}
+
+// conversionErrorDetail returns the text that describes a failed conversion of
+// val to wantTy. Conversion errors can name map keys and object attributes of
+// the given value; keys derived from marked values transfer their marks to
+// the collection as a whole, so when anything in the value is marked the
+// message only states what was required.
+func conversionErrorDetail(val cty.Value, wantTy cty.Type, err error) string {
+	if val.ContainsMarked() {
+		return wantTy.FriendlyNameForConstraint() + " required"
+	}
+	return err.Error()
 }
